@@ -247,7 +247,7 @@ CHECKS["C16"] = dict(
                  "the order of a subscribe and an unsubscribe of the same name inside one request is undefined by the wire format"],
     parts=[
         dict(name="discovery", test="TestDiscovery", kind="rapid", checks={"quick": 400, "thorough": 20000}, shards=16, timeout={"quick": 900, "thorough": 3000}, shrinktime="60s"),
-        dict(name="discovery-realrun", test="TestDiscoveryRealRun", kind="rapid", checks={"quick": 4, "thorough": 60}, shards=8, timeout={"quick": 900, "thorough": 3000}, shrinktime="60s"),
+        dict(name="discovery-realrun", test="TestDiscoveryRealRun", kind="rapid", checks={"quick": 10, "thorough": 120}, shards=16, timeout={"quick": 900, "thorough": 3000}, shrinktime="60s"),
         dict(name="grpc", pkg="disc", test="TestGrpcE2E", kind="rapid", checks={"quick": 5, "thorough": 200}, shards=16, timeout={"quick": 900, "thorough": 3400}, shrinktime="60s", gomaxprocs=4, crash_is_violation=True),
     ],
 )
